@@ -100,7 +100,9 @@ static std::string value_for(World &W, int cls, size_t src, size_t dst)
 		case 3: { size_t bits = 64 + g.below(2000); mpz_set_ui(v, 1); mpz_mul_2exp(v, v, bits);
 			for (int i = 0; i < 4; i++) { mpz_mul_2exp(v, v, 0); mpz_add_ui(v, v, g.next() >> 8); } break; }
 		case 4: mpz_set_ui(v, 4242424242UL); break; // the array delimiter value
-		case 5: { size_t bits = 7000 + g.below(4000); mpz_set_ui(v, 1); mpz_mul_2exp(v, v, bits); mpz_sub_ui(v, v, g.below(1000)); break; }
+		// large values; a quarter of them around and above the largest value Send accepts (2047 base-62 digits, about
+		// 12188 bits): an accepted one has to arrive like any other, a refused one is a refused Send
+		case 5: { size_t bits = (g.below(4) == 0) ? 11900 + g.below(13000) : 7000 + g.below(4000); mpz_set_ui(v, 1); mpz_mul_2exp(v, v, bits); mpz_sub_ui(v, v, g.below(1000)); break; }
 		case 6: mpz_set_ui(v, 61 + g.below(3)); break;
 		case 7: { unsigned char b[40]; g.fill(b, sizeof(b)); mpz_import(v, sizeof(b), 1, 1, 1, 0, b); break; }
 	}
